@@ -314,7 +314,8 @@ func fieldReadsDeep(c *Ctx, fn *ssa.Function, depth int) map[string]bool {
 }
 
 func C32(c *Ctx) {
-	c.Note("all interleavings; the window-rebuild race (rebuildWindowLocked copies counters while addIndex may add to the old window); waiter wake-up liveness")
+	c.Note("all interleavings; tryAdvance reading a window that is replaced before its CAS; waiter wake-up liveness")
+	watermarkSlotExclusionGroup(c, "K2.watermark-slot-updates-exclude-rebuild")
 	const r1 = "K1.watermark-publish-order"
 	c.Rule(r1, "WaterMark.Begin/BeginMany increment the pending counter of an index before publishing it as lastIndex")
 	watermarkPublishOrder(c, r1)
@@ -866,6 +867,11 @@ func rangesOverField(v ssa.Value, owner, field string, depth int) bool {
 
 func C37(c *Ctx) {
 	c.Note("termination itself; lock-order cycles across goroutines; channel capacity arguments; fairness")
+	watermarkSlotExclusionGroup(c, "K2.watermark-slot-updates-exclude-rebuild")
+	compactionReservationGroup(c, "K14.compaction-reservation-released")
+	throttleErrorReportGroup(c, "K15.throttle-error-report-cannot-block")
+	levelReadLockGroup(c, "K16.no-recursive-level-read-lock")
+	memTableSizePositiveGroup(c, "K17.memtable-size-positive")
 	const r0 = "K13.commit-mark-released"
 	c.Rule(r0, "after a successful newCommitTs every continuation of Txn.commitAndSend marks exactly that timestamp done (doneCommit(commitTs) on the send-error return and in the completion callback after request.Wait): a begun commit timestamp that is never marked done stops txnMark, and every later oracle.readTs — and Close — waits forever")
 	doneCommitPairing(c, r0)
